@@ -125,6 +125,16 @@ class Ctx:
         self.vhbin = os.path.join(HARNESS, "bin", "vh-" + self.id.lower())
         env = dict(os.environ)
         env.update(GOENV)
+        extra = []
+        if REPO != "/repo":
+            # scratch tree (used to try seeded changes without touching /repo): alternate
+            # go.mod whose replace points at it, binary kept in the run's work dir
+            mod = open(os.path.join(HARNESS, "go.mod")).read().replace("=> /repo\n", "=> %s\n" % REPO)
+            alt = os.path.join(self.work, "alt.mod")
+            open(alt, "w").write(mod)
+            shutil.copy(os.path.join(HARNESS, "go.sum"), os.path.join(self.work, "alt.sum"))
+            extra = ["-modfile", alt]
+            self.vhbin = os.path.join(self.work, "vh-" + self.id.lower())
         lock = open(os.path.join(HARNESS, "bin", ".lock-" + self.id.lower()), "w")
         fcntl.flock(lock, fcntl.LOCK_EX)
         try:
@@ -134,7 +144,7 @@ class Ctx:
                 shutil.copy(src, dst)
             t = time.time()
             p = subprocess.run(
-                ["go", "build", "-tags", "verif test", "-o", self.vhbin, "./cmd/" + self.id.lower()],
+                ["go", "build", "-tags", "verif test"] + extra + ["-o", self.vhbin, "./cmd/" + self.id.lower()],
                 cwd=HARNESS, env=env, stdout=subprocess.PIPE, stderr=subprocess.STDOUT, text=True)
             if p.returncode != 0:
                 raise MachineryError("harness build failed:\n" + p.stdout[-4000:])
@@ -314,12 +324,13 @@ class Ctx:
             "wall_s": wall,
             "violations": len(self.viol),
         }
-        os.makedirs(os.path.join(VERIF, "evidence"), exist_ok=True)
-        tmp = os.path.join(VERIF, "evidence", ".%s.%d.tmp" % (self.id, os.getpid()))
+        evdir = os.path.join(VERIF, "evidence") if REPO == "/repo" else os.path.join(VERIF, ".work", "evidence-scratch")
+        os.makedirs(evdir, exist_ok=True)
+        tmp = os.path.join(evdir, ".%s.%d.tmp" % (self.id, os.getpid()))
         with open(tmp, "w") as f:
             json.dump(ev, f, indent=1, default=str)
             f.write("\n")
-        os.replace(tmp, os.path.join(VERIF, "evidence", "%s.json" % self.id))
+        os.replace(tmp, os.path.join(evdir, "%s.json" % self.id))
         for k in sorted(self.known_hit):
             print("KNOWN-FINDING: property=%s %s -- %s" % (self.id, k, self.known_hit[k]))
         for (k, what, path) in self.viol:
